@@ -7,7 +7,8 @@
 (*           (any timer among equal deadlines)                                                              *)
 (*   passend must be PassEnd: nothing armed is still due (periodic timers keep firing, one-shots not lost)  *)
 (*   at      doAt(): the effective delay is any value between the two bounds the driver measured around the *)
-(*           call, or one more (rounding up instead of down is not early)                                  *)
+(*           call, or one more (rounding up instead of down is not early); a time point in the past may    *)
+(*           count as "now" (delay 0) or keep its place in the past among the timers that are due          *)
 (*           call (wall clock read before / after it)                                                       *)
 (*   end     the pool is destroyed, the loop has stopped, LeakSanitizer found nothing                       *)
 (* All invariants of TimerPool are evaluated on every state of the trace as well.                           *)
@@ -33,7 +34,7 @@ TNext ==
   \/ IsEv("cancelBegin") /\ UNCHANGED vars                   \* logged before the call so that a crash inside it is attributed
   \/ IsEv("every") /\ InCb /\ NewC /\ DoEvery(Ev.d, Ev.tok) /\ Post
   \/ IsEv("after") /\ InCb /\ NewC /\ DoAfter(Ev.d, Ev.tok) /\ Post
-  \/ IsEv("at") /\ InCb /\ NewC /\ (\E e \in Ev.lo..(Ev.hi + 1) : DoAt(e, Ev.tok)) /\ Post
+  \/ IsEv("at") /\ InCb /\ NewC /\ (\E e \in Ev.lo..(Ev.hi + 1) : DoAt(e, Ev.tok) \/ (e < 0 /\ DoAt(0, Ev.tok))) /\ Post
   \/ IsEv("null") /\ InCb /\ Ev.tok = NullTok /\ DoNull /\ Post
   \/ IsEv("cancel") /\ InCb /\ Cancel(Ev.tok) /\ ret' = Ev.ret /\ Post
   \/ IsEv("cleanup") /\ InCb /\ Cleanup /\ Post
